@@ -34,7 +34,10 @@ pub fn tier_for(property: &str, tier: &str) -> Tier {
             max_depth: 6,
             budget_s: 900.0,
             state_cap: 8_000_000,
-            probe_depth: 3,
+            // (3 until round six: with nine configurations, five clients and nine roots the states
+            // of depth 3 number in the hundreds of thousands, and 9 300 probes on each of them took
+            // the thorough tier of C13 past two hours)
+            probe_depth: 2,
         }
     } else {
         Tier {
